@@ -217,7 +217,7 @@ theorem pinned_probe_counterexample :
 section
 def exSpec : Spec := ⟨"m|k1,m|k2", [⟨"m", some (.str "k1"), .str ""⟩, ⟨"m", some (.str "k2"), .str ""⟩], false⟩
 def exRow : Row := [("m", .map [(.str "k1", .str "v2"), (.str "k2", .str "v1")]), ("n", .atom (.int 1))]
-def exCache : Cache := ⟨[("u5", exRow)], [⟨exSpec, [([.str "v2", .str "v1"], ["u5"])]⟩]⟩
+def exCache : Cache := ⟨[("u5", exRow)], [⟨exSpec, [([some (.str "v2"), some (.str "v1")], ["u5"])]⟩]⟩
 def exConds : List Cond :=
   [⟨"m", .includes, .map [(.str "k1", .str "v2")]⟩, ⟨"m", .includes, .map [(.str "k2", .str "v1")]⟩]
 
